@@ -441,6 +441,36 @@ def replay(cand):
                 dr = pm.draw(getattr(D, nm).dist(), draws=4000, random_seed=np.random.default_rng(9))
                 if st.kstest(dr, st.beta(al, be).cdf).pvalue < 1e-4:
                     bad.append("%s draws do not follow Beta(%g, %g)" % (nm, al, be))
+        elif what == "default_wiring":
+            # the same call on the real build, judged by what it draws: every default component follows the
+            # distribution the arguments prescribe, in the argument's own unit
+            npoly = shape["poly"]
+            sv = [7 * u.km / u.s, 0.3 * u.m / u.s / u.day][:npoly]
+            try:
+                prior = tj.JokerPrior.default(P_min=3 * u.day, P_max=2 * u.year, sigma_K0=20 * u.km / u.s, P0=2 * u.year,
+                                              sigma_v=sv if npoly > 1 else sv[0], poly_trend=npoly, s=3 * u.m / u.s)
+                smp = prior.sample(size=3000, rng=np.random.default_rng(5), generate_linear=True)
+            except Exception as e:
+                bad.append("JokerPrior.default / sample with valid mixed-unit arguments raised %s: %s" % (type(e).__name__, str(e)[:200]))
+                smp = None
+            if smp is not None:
+                Pd = smp["P"].to_value(u.day)
+                hi = (2 * u.year).to_value(u.day)
+                if Pd.min() < 3 * (1 - 1e-9) or Pd.max() > hi * (1 + 1e-9) or Pd.max() < 100:
+                    bad.append("3000 default draws of P span [%.4g, %.4g] d; P_min = 3 d, P_max = 2 yr = %.4g d" % (Pd.min(), Pd.max(), hi))
+                elif st.kstest(np.log(Pd), st.uniform(np.log(3.0), np.log(hi) - np.log(3.0)).cdf).pvalue < 1e-5:
+                    bad.append("default draws of ln P are not uniform on [ln 3 d, ln 2 yr]")
+                ee = np.asarray(smp["e"])
+                if st.kstest(ee, st.beta(0.867, 3.03).cdf).pvalue < 1e-5:
+                    bad.append("default draws of e do not follow Beta(0.867, 3.03)")
+                for j in range(npoly):
+                    vv = smp["v%d" % j].to_value(sv[j].unit)
+                    if st.kstest(vv, st.norm(0, sv[j].value).cdf).pvalue < 1e-5:
+                        bad.append("default draws of v%d have spread %.4g %s; sigma_v = %s" % (j, np.std(vv), sv[j].unit, sv[j]))
+                Kk = smp["K"].to_value(u.km / u.s)
+                sig = 20.0 * (Pd / hi) ** (-1 / 3) / np.sqrt(1 - ee ** 2)
+                if st.kstest(Kk / sig, st.norm(0, 1).cdf).pvalue < 1e-5:
+                    bad.append("default draws of K / (sigma_K0 (P/P0)^(-1/3) / sqrt(1-e^2)) are not standard normal")
         else:
             return {"reproduced": False, "detail": "structural claim; nothing to replay"}
     except Exception as e:
